@@ -1,6 +1,8 @@
 #!/bin/bash
-# usage: tools/seedtest.sh <seed-dir-name> <check-id> [<check-id>...]
-# Takes the source change of /tmp/seed/<name> (or /verif/seeded/<name>/patch.diff), applies it to /repo, runs the quick checks, reverts.
+# usage: tools/seedtest.sh <seed-name> <check-id> [<check-id>...]
+# Applies a seeded change (the working-tree diff of the sub-agent's worktree $SEEDROOT/<name>, or, with FROMSTORE=1 or when
+# that worktree is gone, /verif/seeded/$STORE/patch.diff) to a scratch worktree of /repo's HEAD outside /repo and /verif,
+# runs the quick checks against that worktree (VERIF_ALT_REPO: /repo and the evidence files are not touched), removes it.
 set -u
 name=$1; shift
 root=${SEEDROOT:-/tmp/seed}; store=${STORE:-$name}
@@ -10,19 +12,16 @@ if [ -d $root/$name ] && [ -z "${FROMSTORE:-}" ]; then
 else
   patch=/verif/seeded/$store/patch.diff
 fi
-cd /repo
-if [ -n "$(git status --porcelain)" ]; then echo "repo dirty, abort"; exit 3; fi
-git apply $patch || { echo "patch does not apply"; exit 4; }
-git diff --stat | tail -1
+wt=/var/tmp/verif-mut-$$
+git -C /repo worktree add --detach -q $wt HEAD || exit 3
+trap 'git -C /repo worktree remove --force '$wt' 2>/dev/null; rm -rf '$wt' /tmp/seedtest.'$$'.log' EXIT
+git -C $wt apply $patch || { echo "patch does not apply"; exit 4; }
+git -C $wt diff --stat | tail -1
 cd /verif
-rm -rf /tmp/ev.bak.$$; cp -r evidence /tmp/ev.bak.$$ 2>/dev/null
 for id in "$@"; do
-  VERIF_SEED=${VERIF_SEED:-7} timeout 2400 ./check $id --tier quick > /tmp/seedtest.$$.log 2>&1
+  VERIF_ALT_REPO=$wt VERIF_SEED=${VERIF_SEED:-7} timeout 2400 ./check $id --tier quick > /tmp/seedtest.$$.log 2>&1
   rc=$?
-  echo "== $name vs $id: exit=$rc $(grep -E '^(VIOLATION|OK|INCONCLUSIVE)' /tmp/seedtest.$$.log | head -2 | tr '\n' ' ')"
+  echo "== $store vs $id: exit=$rc $(grep -E '^(VIOLATION|OK|INCONCLUSIVE)' /tmp/seedtest.$$.log | head -2 | tr '\n' ' ')"
   grep -v 'rapid\] draw' /tmp/seedtest.$$.log | grep -E "failed after|Original traceback" | cut -c1-500 | head -2
 done
-rm -f /tmp/seedtest.$$.log
-git -C /repo checkout -- .
 rm -rf /verif/replays
-rm -rf /verif/evidence; mv /tmp/ev.bak.$$ /verif/evidence 2>/dev/null
